@@ -285,11 +285,6 @@ example : ∀ maxStack fuel traces,
     (e := .self_) (er := .selfOutsideObject) rfl rfl (by simp [Lower.lower, Lower.lowerWith, Lower.lowerE])
     (by simp [Analyze.analyze])
 
-theorem hs66 : Core.hexStr "66" = some "f" := by decide
-theorem hs78 : Core.hexStr "78" = some "x" := by decide
-theorem hd78 : hexDecode "78" = some [120] := by decide
-theorem hd66 : hexDecode "66" = some [102] := by decide
-
 /-- `{} {}` -/
 example : ∃ c, lowerE [] (.objExt (.object (.members []) ⟨0, 2⟩) (.members []) ⟨3, 5⟩ ⟨0, 5⟩) true false = .ok c :=
   ⟨.objExt (.object .nil) .nil, by simp [lowerE, lowerObj, lowerMembers, extend]; rfl⟩
@@ -298,20 +293,22 @@ example : ∃ c, lowerE [] (.objExt (.object (.members []) ⟨0, 2⟩) (.members
 example : ∃ c, lowerE [] (.ite_ (.bool true ⟨3, 7⟩) (.null ⟨13, 17⟩) none ⟨0, 17⟩) true false = .ok c :=
   ⟨_, by simp [lowerE, lowerOpt]; rfl⟩
 
+theorem f_ne_std : ("f" == "std") = false := by decide
+theorem x_ne_std : ("x" == "std") = false := by decide
+
 /-- `local f(x) = x; null` -/
-example : ∃ c, lowerE [] (.local_ [.mk ⟨"66", ⟨6, 7⟩⟩ true [.mk ⟨"78", ⟨8, 9⟩⟩ none] ⟨7, 10⟩
-      (.ident ⟨"78", ⟨13, 14⟩⟩ ⟨13, 14⟩)] (.null ⟨16, 20⟩) ⟨0, 20⟩) true false = .ok c :=
+example : ∃ c, lowerE [] (.local_ [.mk ⟨"f", ⟨6, 7⟩⟩ true [.mk ⟨"x", ⟨8, 9⟩⟩ none] ⟨7, 10⟩
+      (.ident ⟨"x", ⟨13, 14⟩⟩ ⟨13, 14⟩)] (.null ⟨16, 20⟩) ⟨0, 20⟩) true false = .ok c :=
   ⟨.local_ (.cons "f" (.some (.cons "x" .none .nil)) (.var "x") .nil) .null, by
-    simp [lowerE, lowerBinds, lowerParams, lowerOpt, bindsBindStd, paramsBindStd, isStd, decStr, hs66, hs78, hd78,
-      hd66, stdBytes]
+    simp [lowerE, lowerBinds, lowerParams, lowerOpt, bindsBindStd, paramsBindStd, isStd, decStr, f_ne_std, x_ne_std]
     rfl⟩
 
 /-- `{ f(x): x }` -/
-example : ∃ c, lowerE [] (.object (.members [.field (.func (.ident ⟨"66", ⟨2, 3⟩⟩) [.mk ⟨"78", ⟨4, 5⟩⟩ none]
-      ⟨3, 6⟩ .Default (.ident ⟨"78", ⟨8, 9⟩⟩ ⟨8, 9⟩))]) ⟨0, 11⟩) true false = .ok c :=
+example : ∃ c, lowerE [] (.object (.members [.field (.func (.ident ⟨"f", ⟨2, 3⟩⟩) [.mk ⟨"x", ⟨4, 5⟩⟩ none]
+      ⟨3, 6⟩ .Default (.ident ⟨"x", ⟨8, 9⟩⟩ ⟨8, 9⟩))]) ⟨0, 11⟩) true false = .ok c :=
   ⟨.object (.fieldFix "f" false .default (.some (.cons "x" .none .nil)) (.var "x") .nil), by
     simp [lowerE, lowerObj, lowerMembers, lowerFieldName, lowerParams, lowerOpt, membersBindStd, paramsBindStd, isStd,
-      decStr, hs66, hs78, hd78, stdBytes, mkField, vis]
+      decStr, x_ne_std, mkField, vis]
     rfl⟩
 
 end Rsj.Pipeline
